@@ -139,6 +139,38 @@ def is_valid_total(y: int, m: int, d: int, suffix: int) -> bool:
     return got == (suffix == 0 and not impossible(y, m, d))
 
 
+def _alternatives(part):
+    from bumpver import v2patterns
+    return v2patterns.PART_PATTERNS[part].pattern.strip("()?:").split("|") if hasattr(v2patterns.PART_PATTERNS[part], "pattern") \
+        else str(v2patterns.PART_PATTERNS[part]).replace("(?:", "").replace(")", "").split("|")
+
+
+TAG_SPELLINGS = sorted(set(_alternatives("TAG"))) + ["gamma", "Final"]
+PYTAG_SPELLINGS = sorted(set(_alternatives("PYTAG"))) + ["c", "x"]
+
+
+def is_valid_total_tag(a: int, b: int, c: int, k: int, n: int, py: bool) -> bool:
+    """every spelling the TAG / PYTAG part of the real pattern table accepts (read from v2patterns.PART_PATTERNS on every run:
+    preview, final, dev, alpha, beta, post, rc / dev, post, rc, a, b) is a matching tag, every other spelling is refused,
+    and the filter never raises
+    pre: 0 <= a <= 99 and 0 <= b <= 99 and 0 <= c <= 99 and 0 <= k <= 8 and 0 <= n <= 9
+    post: _
+    """
+    if py:
+        if k >= len(PYTAG_SPELLINGS):
+            return True
+        sp = PYTAG_SPELLINGS[k]
+        text = str(a) + "." + str(b) + "." + str(c) + sp + str(n)
+        got = v2version.is_valid(text, "MAJOR.MINOR.PATCH[PYTAGNUM]")
+        return got == (k < len(PYTAG_SPELLINGS) - 2)
+    if k >= len(TAG_SPELLINGS):
+        return True
+    sp = TAG_SPELLINGS[k]
+    text = str(a) + "." + str(b) + "." + str(c) + "-" + sp
+    got = v2version.is_valid(text, "MAJOR.MINOR.PATCH[-TAG]")
+    return got == (k < len(TAG_SPELLINGS) - 2)
+
+
 def is_valid_total_doy(y: int, j: int) -> bool:
     """day 366 of a common year is not a date of that year: the reader may accept or refuse it, but must not raise
     pre: 2019 <= y <= 2024 and 1 <= j <= 366
